@@ -16,6 +16,7 @@ import struct
 from simkit import probes
 from simkit.scenario import Case
 
+from . import c03_codec
 from .overlay_scenarios import SCENARIOS
 
 PROPERTY = "C03"
@@ -30,15 +31,20 @@ RULE = ("case = (scenario: 'multi' = Discovery+DHTDiscovery+HiddenTunnel+Attesta
         "first genuine datagram of every (prefix, msg id, cell label) seen by the victim; every msg id 0..255 with empty and "
         "foreign body for each overlay prefix; all lengths 0..64 of zero/0xff/seeded content with and without a valid "
         "prefix; length fields overwritten with 0xff/0xffff at every position; crafted cells for live circuit/relay/exit "
-        "ids with bodies 0..12 bytes and all flag combinations; sampled random bytes up to 1500; load_snapshot on every "
-        "truncation of a genuine snapshot. Non-trivial = an injected datagram that reached an overlay handler or a cell "
+        "ids with bodies 0..12 bytes and all flag combinations; every byte bumped by +1/+2/+9/-1 (parts that claim slightly more "
+        "or less than they have); sampled random bytes up to 1500; load_snapshot on every "
+        "truncation of a genuine snapshot; every Serializable class that was decoded during the run is handed every prefix, "
+        "every single-byte bump / 0xff rewrite, extensions and random strings of its genuine encoding directly through "
+        "unpack_serializable and unpack_serializable_list, at offset 0 and behind a pad; 'codec' cases do the same for generated genuine "
+        "encodings of every Serializable class shipped (format_list walked over the real packers). Non-trivial = an injected datagram that reached an overlay handler or a cell "
         "branch (right prefix, registered msg id); distinct by (overlay, msg id, length, kind).")
 COMPONENTS = {"real": ["UDPEndpoint.datagram_received", "Endpoint.notify_listeners", "Community.on_packet",
                        "PythonCryptoEndpoint.on_packet/process_cell", "TunnelCommunity.on_cell", "lazy_community wrappers",
                        "Serializer and all registered Packers", "Network.load_snapshot"],
               "stub": ["UDP/IP (SimNet)", "wall clock", "OS RNG"]}
 ASSUMPTIONS = ["the native ipv8_rust_tunnels.Endpoint is not covered (PythonCryptoEndpoint is what runs)"]
-REACH = ["inj:prefix", "inj:msgid", "inj:short", "inj:lenrewrite", "inj:cell", "inj:random", "reached_handler",
+REACH = ["inj:prefix", "inj:msgid", "inj:short", "inj:lenrewrite", "inj:lenbump", "inj:cell", "inj:random", "reached_handler",
+         "direct_decode", "direct_decode_accepted", "codec_classes",
          "cell_branch_circuit", "cell_branch_exit", "decode_exact_end", "snapshot_truncations"]
 
 SINGLE = ["community", "discovery", "dhtdiscovery", "hidden", "attestation", "identity", "pex"]
@@ -47,6 +53,7 @@ SINGLE = ["community", "discovery", "dhtdiscovery", "hidden", "attestation", "id
 def cases(tier: str, base_seed: int):  # noqa: ANN201
     stride = 3 if tier == "quick" else 1
     n = 0
+    yield {"scenario": "codec", "seed": base_seed, "knobs": {}, "per_class": 3}
     for victim in (0, 1, 2, 3):
         n += 1
         yield {"scenario": "multi", "victim": victim, "seed": base_seed + n, "knobs": {}, "stride": stride}
@@ -56,6 +63,9 @@ def cases(tier: str, base_seed: int):  # noqa: ANN201
     for i in itertools.count():
         seed = base_seed + 100 + i
         rng = random.Random(f"c03/{seed}")
+        if i % 25 == 7:
+            yield {"scenario": "codec", "seed": seed, "knobs": {}, "per_class": 4}
+            continue
         scn = rng.choice(["multi", "multi", *SINGLE])
         yield {"scenario": scn, "victim": rng.randrange(2 if SCENARIOS[scn].n_nodes == 2 else 3), "seed": seed,
                "knobs": {"lat_jit": rng.choice([0.0, 0.02]), "dup": rng.choice([0.0, 0.05])}, "stride": rng.choice([2, 3, 5])}
@@ -102,33 +112,28 @@ def _install_decode_monitor() -> None:
         ret = orig_us(self, serializable, data, offset)
         cb = _MON["cb"]
         if cb is not None:
-            cb("serializable", serializable.__name__, self, data, offset, ret[1], None)
+            cb("serializable", serializable.__name__, self, data, offset, ret[1], serializable)
         return ret
     ser.Serializer.unpack_serializable = unpack_serializable
 
 
-def execute(case: dict) -> dict:  # noqa: C901, PLR0915
-    from ipv8.messaging.interfaces.endpoint import EndpointListener
-    from ipv8.messaging.serialization import VarLen
-    from ipv8.peerdiscovery.network import Network
+def _monitor(c, world, over_seen: set, capture=None):  # noqa: ANN001, ANN202
+    from ipv8.messaging.serialization import NestedPayload, VarLen
 
-    _install_decode_monitor()
-    c = Case(case, net=True, first_only=False)
-    world, net, loop = c.world, c.net, c.loop
-    scn = SCENARIOS[case["scenario"]]
-    rng = world.stream("injector")
-    stride = case.get("stride", 3)
-    captured: dict = {}           # (prefix, msgid, label) -> datagram, as delivered to the victim
-    cur = {"inj": None}           # injected datagram now being delivered: dict
-    injected: list = []
-    foreign_prefix = b"\x00\x02" + b"\xfe" * 20
-
-    over_seen: set = set()
-
-    # ---- decode monitor
     def mon(kind, name, obj, data, off_in, off_out, values) -> None:  # noqa: ANN001
         if not isinstance(off_out, int):
             return
+        if capture is not None:
+            capture(kind, name, obj, data, off_in, off_out, values)
+        if kind == "packer" and isinstance(obj, NestedPayload) and off_out <= len(data):
+            try:
+                declared = struct.unpack_from(">H", data, off_in)[0]
+            except struct.error:
+                declared = None
+            if declared is not None and off_out != off_in + 2 + declared:
+                c.violate("declared_length", "nested_payload_end_differs_from_declared_length",
+                          f"nested payload at offset {off_in} declares {declared} bytes, decoding continued at offset {off_out} "
+                          f"instead of {off_in + 2 + declared} (buffer {len(data)})")
         if off_out > len(data):
             # report the innermost decoder only: enclosing packers / payloads return the same impossible offset
             tag = (len(data), off_out)
@@ -150,6 +155,60 @@ def execute(case: dict) -> dict:  # noqa: C901, PLR0915
                 c.violate("declared_length", f"varlen_value_shorter_than_declared:{name}",
                           f"{name} declared {declared} bytes but produced a value of {got} bytes (buffer {len(data)}, "
                           f"offset {off_in})")
+    return mon
+
+
+def execute_codec(case: dict) -> dict:
+    """Generated genuine encodings of every shipped Serializable class, corrupted and handed to the decoders directly."""
+    _install_decode_monitor()
+    c = Case(case, first_only=False)
+    world = c.world
+    rng = world.stream("codec")
+    items, skipped = c03_codec.genuine_encodings(rng, per_class=case.get("per_class", 3))
+    _MON["cb"] = _monitor(c, world, set())
+    try:
+        n = c03_codec.direct_decode(c, world, rng, items, _MON)
+    finally:
+        _MON["cb"] = None
+    classes = sorted({cls.__name__ for cls, _s, _e in items})
+    for name in classes:
+        c.nontrivial(f"codec/{name}")
+    world.probe("codec_classes", len(classes))
+    world.trace.event("c03codec", None, (len(items), n))
+    c.sample = {"scenario": "codec", "classes_with_generated_encodings": classes, "classes_without": skipped, "decodes": n}
+    return c.result(evaluations=max(1, n))
+
+
+def execute(case: dict) -> dict:  # noqa: C901, PLR0915
+    if case.get("scenario") == "codec":
+        return execute_codec(case)
+    from ipv8.messaging.interfaces.endpoint import EndpointListener
+    from ipv8.messaging.serialization import VarLen  # noqa: F401
+    from ipv8.peerdiscovery.network import Network
+
+    _install_decode_monitor()
+    c = Case(case, net=True, first_only=False)
+    world, net, loop = c.world, c.net, c.loop
+    scn = SCENARIOS[case["scenario"]]
+    rng = world.stream("injector")
+    stride = case.get("stride", 3)
+    captured: dict = {}           # (prefix, msgid, label) -> datagram, as delivered to the victim
+    cur = {"inj": None}           # injected datagram now being delivered: dict
+    injected: list = []
+    foreign_prefix = b"\x00\x02" + b"\xfe" * 20
+
+    over_seen: set = set()
+    genuine: dict = {}            # Serializable class name -> [(class, serializer, genuine encoding)], from successful decodes
+    direct = {"on": False}
+
+    # ---- decode monitor
+    def capture(kind, name, obj, data, off_in, off_out, values) -> None:  # noqa: ANN001
+        if kind == "serializable" and not direct["on"] and cur["inj"] is None and 0 <= off_in < off_out <= len(data):
+            lst = genuine.setdefault(name, [])
+            enc = bytes(data[off_in:off_out])
+            if len(lst) < (1 if stride > 1 else 2) and all(enc != e for _c, _s, e in lst):
+                lst.append((values, obj, enc))
+    mon = _monitor(c, world, over_seen, capture)
     _MON["cb"] = mon
 
     class Witness(EndpointListener):
@@ -270,6 +329,12 @@ def execute(case: dict) -> dict:  # noqa: C901, PLR0915
                     if p + 1 < len(d):
                         b[p + 1] = 0xff
                         inject("lenrewrite", bytes(b))
+                # G. length fields bumped slightly (a part claims a few bytes more / less than it has)
+                for p in range(23, len(d), max(1, stride)):
+                    for dlt in ((1, 9) if stride > 1 else (1, 2, 9, -1)):
+                        b = bytearray(d)
+                        b[p] = (b[p] + dlt) & 0xff
+                        inject("lenbump", bytes(b))
                 if d[22] == 0 and len(d) >= 29:
                     # F. cells for this live circuit id: all flag combinations, short bodies
                     cid = d[23:27]
@@ -334,6 +399,13 @@ def execute(case: dict) -> dict:  # noqa: C901, PLR0915
         if not got["n"]:
             c.violate("liveness", "no_introduction_response_after_storm",
                       "victim did not answer an introduction request within 5 virtual seconds after the storm")
+        # (7) every Serializable class decoded successfully during the run, handed corrupted encodings directly
+        direct["on"] = True
+        items = [it for name in sorted(genuine) for it in genuine[name]]
+        c03_codec.direct_decode(c, world, rng, items, _MON)
+        c.nontrivial(f"direct/{case['scenario']}/{len(genuine)}")
+        direct["classes"] = sorted(genuine)
+        direct["on"] = False
         # (6) snapshot loader
         snap = victim.network.snapshot()
         if not snap:
@@ -364,7 +436,7 @@ def execute(case: dict) -> dict:  # noqa: C901, PLR0915
                   f"{len(d)}-byte datagram {d[:40].hex()}{'...' if len(d) > 40 else ''}")
     world.trace.event("c03", None, (len(injected), len(net.receive_errors)))
     c.sample = {"scenario": case["scenario"], "victim": case["victim"], "injected": len(injected),
-                "captured_types": len(captured),
+                "captured_types": len(captured), "serializable_classes_decoded_directly": direct.get("classes", []),
                 "examples": [{"kind": r["kind"], "len": len(r["data"]), "head": r["data"][:30].hex(),
                               "reached_handler": bool(r.get("reached"))} for r in injected[:: max(1, len(injected) // 6)][:6]]}
     return c.result(evaluations=max(1, len(injected)))
